@@ -416,6 +416,7 @@ impl<T: Config> UdpProtocol<T> {
 
                 // trigger a NetworkInterrupted event if we didn't receive a packet for some time
                 if !self.disconnect_notify_sent
+                    && !self.disconnect_event_sent
                     && self.last_recv_time + self.disconnect_notify_start < now
                 {
                     let duration: Duration = self
@@ -511,8 +512,10 @@ impl<T: Config> UdpProtocol<T> {
 
         // we should never have so much pending input for a remote player (if they didn't ack, we should stop at MAX_PREDICTION_THRESHOLD)
         // this is a spectator that didn't ack our input, we just disconnect them
-        if self.pending_output.len() > PENDING_OUTPUT_SIZE {
+        if self.pending_output.len() > PENDING_OUTPUT_SIZE && !self.disconnect_event_sent {
+            // only once: several inputs can be sent before the session handles the event
             self.event_queue.push_back(Event::Disconnected);
+            self.disconnect_event_sent = true;
         }
 
         self.send_pending_output(connect_status);
